@@ -259,6 +259,19 @@ func c08(r *report.Run) {
 			r.Sample(map[string]interface{}{"scenario": sc.name, "threads": len(sc.threads), "preemption_bound": bound, "schedules": ex.Schedules})
 		}
 	}
+	// concurrent Compile calls, interleaved at the visitor / const-expr seams
+	cs, cst, ccap := c08CompileScenarios(r, &order)
+	schedules += cs
+	steps += cst
+	if ccap {
+		exhaustive = false
+	}
+	r.Set("compile_schedules", cs)
+	if globalsSnap != nil {
+		if g := globalsSnap(); g != globalsBefore {
+			r.Report(report.Violation{Sub: "scheduler-compile", Kind: "package-level-state-modified", Witness: c08Diff(globalsBefore, g), Order: order})
+		}
+	}
 	// auxiliary pass: free-running goroutines under the race detector
 	raceNote := c08RacePass(r)
 	if strings.Contains(raceNote, "data race") || strings.Contains(raceNote, "fatal") || strings.Contains(raceNote, "mismatch") {
@@ -280,7 +293,7 @@ func c08(r *report.Run) {
 	r.Set("exhaustive", exhaustive)
 	r.Set("rule", "every interleaving at instruction granularity with at most b preemptions (2 threads: b=2, 3 threads: b=1; thorough b+1) of VM threads running fresh shared program instances (regexp, lookup-map, folded slice, call-descriptor constants, nested scopes, ranges, dynamic patterns, a failing run on a multi-line source) on two shared read-only environments; states = complete schedules, transitions = instructions executed; distinct_nontrivial = distinct run results observed (one per program and environment on a correct tree: the threads share nothing mutable)")
 	r.Assume("scheduling points are instruction boundaries (vm.Debug() seam); accesses between two scheduling points are invisible to the scheduler and are covered only by the auxiliary free-running pass under the race detector (not model checking, declared as such)")
-	r.Assume("concurrent Compile calls are exercised only in the auxiliary race pass")
+	r.Assume("concurrent Compile calls are interleaved at the seams Compile offers without source changes (a Patch visitor that yields at every node, i.e. between the first check, each visited node and the second check/optimizer/compiler); finer interleavings of Compile are covered only by the auxiliary race pass")
 	r.Assume("package-level variables of every library package are snapshotted after every schedule through accessors generated into a build overlay from the sources under test (package_level_state_snapshotted says whether that build was available)")
 }
 
